@@ -75,6 +75,13 @@ def handle : Handler := fun op args =>
           let passes := passes.mergeSort (fun x y => decide (x ≤ y))
           (passes.foldl (fun s t => assignStep n a b z pp s t) (fun _ => ((0 : Rat), (0 : Rat)))) k
         "ok " ++ toString idx.length ++ " " ++ showPairs (idx.map entry)
+  | "c12.seq" => withArgs (pList (do let n ← pNat; let a ← pRat; let b ← pRat; pure (n, a, b))) args fun reqs =>
+      let rs := glSeq rnd cospiD epsQ fuelN reqs
+      if rs.any Option.isNone then "undef" else
+      "ok " ++ toString rs.length ++ " " ++ " ".intercalate (rs.map (fun r =>
+        match r with
+        | some l => toString l.length ++ " " ++ showPairs l
+        | none => "0"))
   | "c12.sumvals" => withArgs (do let v ← pRats; let rw ← pPairs; pure (v, rw)) args fun (v, rw) =>
       match integrateGLvals v rw with
       | .ok r => "ok " ++ showRat r
